@@ -7,7 +7,9 @@
 //   O3  a negative / out-of-range / uninitialised-operand request raises occa::exception
 //   O4  a request that is none of these does not raise
 //   O5  after an exception nothing changed (every handle: init flag, size, dtype, pointer, bytes)
-//   O6  no crash: requests of a risky shape are first tried in a forked child
+//   O6  no crash: requests of a risky shape (one-sided uninitialised copy, overlapping copy) are first
+//       tried in a forked child, until that shape has survived twice in this process (a fork of an
+//       ASan process costs ~0.1-0.3 s); a shape that crashed once is always tried in a child
 //   O7  clones and fresh allocations do not overlap anything that is live; wrap returns the array
 #include <occa.hpp>
 #include <occa/internal/core/memory.hpp>
@@ -15,6 +17,7 @@
 #include <unistd.h>
 #include <fcntl.h>
 #include <functional>
+#include <memory>
 #include "hproto.hpp"
 
 static const int NV = 8;             // handle variables
@@ -211,7 +214,9 @@ int main() {
       int made = -1;            // handle variable assigned by the operation
       int parent = -1;          // handle the new one must lie inside (slice, plus, cast)
       bool risky = forkAll;
-      std::vector<char> hostDst; long wantBytes = -1; int readVar = -1;
+      int riskClass = 4;        // 0/1: cmm/ctm with one uninitialised operand, 2/3: overlapping copy up/down
+      static int probeOk[5] = {0, 0, 0, 0, 0}, probeBad[5] = {0, 0, 0, 0, 0};
+      std::shared_ptr<char> hostDst; long hostCap = 0; long wantBytes = -1; int readVar = -1;
       std::function<void()> shadowOk;   // shadow update when the request succeeded
 
       if (op == "info" && nnum == 1 && isVar(a[0])) return info((int) a[0]);
@@ -222,8 +227,9 @@ int main() {
         if (n < 0) req.bad("negative entries");
         made = v;
         act = [=, &bytes]() {
-          std::vector<char> src(bytes.begin(), bytes.end());      // exactly sized: an over-read is an ASan report
-          vars[v] = withData ? dev.malloc(n, *dtypeOf(e), (const void*) src.data()) : dev.malloc(n, *dtypeOf(e));
+          std::unique_ptr<char[]> src(new char[bytes.size()]);    // exactly sized: an over-read is an ASan report
+          memcpy(src.get(), bytes.data(), bytes.size());
+          vars[v] = withData ? dev.malloc(n, *dtypeOf(e), (const void*) src.get()) : dev.malloc(n, *dtypeOf(e));
         };
         shadowOk = [=, &bytes]() {
           if (n == 0) { sv[v] = SView{false, 0, 0, 0, 1, -1}; return; }
@@ -310,8 +316,9 @@ int main() {
           if (!req.invalid && (long) bytes.size() < n) return "trap";       // the op line lies about its data
         }
         act = [=, &bytes]() {
-          std::vector<char> src(bytes.begin(), bytes.end());
-          vars[v].copyFrom((const void*) src.data(), cnt, off);
+          std::unique_ptr<char[]> src(new char[bytes.size()]);    // non-null even when empty
+          memcpy(src.get(), bytes.data(), bytes.size());
+          vars[v].copyFrom((const void*) src.get(), cnt, off);
         };
         shadowOk = [=, &bytes]() {
           if (!sv[v].init) return;
@@ -327,9 +334,11 @@ int main() {
           wantBytes = ((cnt == -1) ? lenOf(v) : cnt) * sv[v].esz;
           if (!req.invalid && cap < wantBytes) return "trap";                // destination too small
         }
-        hostDst.assign(cap, (char) 0xEE);
+        hostDst.reset(new char[cap], std::default_delete<char[]>());   // exactly sized, non-null even when empty
+        memset(hostDst.get(), 0xEE, cap);
+        hostCap = cap;
         readVar = v;
-        act = [=, &hostDst]() { vars[v].copyTo((void*) hostDst.data(), cnt, off); };
+        act = [=]() { vars[v].copyTo((void*) hostDst.get(), cnt, off); };
         shadowOk = []() {};
       } else if ((op == "cmm" || op == "ctm") && nnum == 5 && isVar(a[0]) && isVar(a[1])) {
         // cmm d s …: vars[d].copyFrom(vars[s], …)     ctm s d …: vars[s].copyTo(vars[d], …)
@@ -338,7 +347,7 @@ int main() {
         int self = from ? d : s;
         long cnt = a[2], doff = a[3], soff = a[4];
         if (!sv[d].init || !sv[s].init) {
-          risky = true;
+          risky = true; riskClass = from ? 0 : 1;
           req.bad("uninitialised operand", !sv[d].init && !sv[s].init);
         } else {
           Req r2;
@@ -350,7 +359,7 @@ int main() {
           req = r2;
           if (!req.invalid && n > 0 && sv[d].buf == sv[s].buf) {             // really overlapping byte ranges
             long db = sv[d].off + doff * sv[d].esz, sb = sv[s].off + soff * sv[s].esz;
-            if (db < sb + n && sb < db + n && db != sb) risky = true;
+            if (db < sb + n && sb < db + n && db != sb) { risky = true; riskClass = (db > sb) ? 2 : 3; }
           }
         }
         act = [=]() {
@@ -401,8 +410,9 @@ int main() {
       }
 
       // ---- O6: risky shapes are tried in a child first
-      if (risky) {
+      if (risky && (forkAll || probeBad[riskClass] > 0 || probeOk[riskClass] < 2)) {
         std::string crash = probe(act);
+        if (crash.empty()) probeOk[riskClass]++; else probeBad[riskClass]++;
         if (!crash.empty()) {
           hp::oracle("crash or undefined behaviour in `" + op + "` (" + (req.invalid ? req.why : "valid request") + "): " + crash);
           return "trap";
@@ -457,7 +467,7 @@ int main() {
       if (op == "cth") {
         int v = readVar;
         if (!sv[v].init || req.invalid) {
-          for (char c : hostDst) if (c != (char) 0xEE) { hp::oracle("copyTo wrote to the destination although nothing should be copied"); break; }
+          for (long k = 0; k < hostCap; ++k) if (hostDst.get()[k] != (char) 0xEE) { hp::oracle("copyTo wrote to the destination although nothing should be copied"); break; }
           out = "ok";
         } else {
           long off = a[3];
@@ -465,13 +475,13 @@ int main() {
           static const char *dg = "0123456789abcdef";
           for (long k = 0; k < wantBytes; ++k) {
             int want = sbufs[sv[v].buf].b[sv[v].off + off * sv[v].esz + k];
-            unsigned char got = hostDst[k];
+            unsigned char got = hostDst.get()[k];
             if (want < 0) { shown += "??"; continue; }
             if (got != want) hp::oracle("copyTo byte " + std::to_string(k) + " is " + std::to_string(got) + ", the reference byte array has " + std::to_string(want));
             shown.push_back(dg[got >> 4]); shown.push_back(dg[got & 15]);
           }
-          for (size_t k = wantBytes; k < hostDst.size(); ++k)
-            if (hostDst[k] != (char) 0xEE) { hp::oracle("copyTo wrote past the requested count"); break; }
+          for (long k = wantBytes; k < hostCap; ++k)
+            if (hostDst.get()[k] != (char) 0xEE) { hp::oracle("copyTo wrote past the requested count"); break; }
           out = wantBytes ? "ok " + shown : "ok -";
         }
       }
